@@ -22,6 +22,7 @@ type Clause struct {
 	Expr  ast.Expr
 	File  string
 	Line  int
+	ThoroughOnly bool // checked only in the thorough tier (slow solver query)
 }
 
 type LoopSpec struct {
@@ -88,7 +89,7 @@ type ContractFile struct {
 	Ghosts    map[string]string
 }
 
-var kwRe = regexp.MustCompile(`^(func|props|mode|requires|ensures|safe|pure|modifies|assumed|lemma|nonnil|loop|invariant|unroll|decreases|site|assert|assume|ghostset|ghostdecl|spec|note|end)\b`)
+var kwRe = regexp.MustCompile(`^(func|props|mode|requires|ensures_thorough|ensures|safe|pure|modifies|assumed|lemma|nonnil|loop|invariant|unroll|decreases|site|assert|assume|ghostset|ghostdecl|spec|note|end)\b`)
 var labelRe = regexp.MustCompile(`^\[([A-Za-z0-9_.\-]+)\]\s*`)
 
 func parseExprClause(kind, text, file string, line int) (*Clause, error) {
@@ -190,10 +191,13 @@ func ParseContractFile(path, pkgPath string) (*ContractFile, error) {
 			default:
 				return nil, fmt.Errorf("%s:%d: unknown mode %q", path, rl.line, rest)
 			}
-		case "requires", "ensures":
+		case "requires", "ensures", "ensures_thorough":
 			c, err := parseExprClause(kw, rest, path, rl.line)
 			if err != nil {
 				return nil, err
+			}
+			if kw == "ensures_thorough" {
+				c.ThoroughOnly = true
 			}
 			if kw == "requires" {
 				cur.Requires = append(cur.Requires, c)
